@@ -185,7 +185,7 @@ func VerifLemma_C01A_GetImage() {
 		}
 		ext := ""
 		if hasExternal[i] {
-			ext = "ext/" + vfNames[i]
+			ext = "ext/" + vfName(i)
 		}
 		verifAssert(handler.addPath(g.names[i], ext, "", fn, cid) == nil, "addPath")
 	}
@@ -232,7 +232,7 @@ func VerifLemma_C01A_GetImage() {
 			verifAssert(imageFile.CommitID() == uuid.Nil, "no commit without module")
 		}
 		if hasExternal[i] {
-			verifAssert(imageFile.ExternalPath() == "ext/"+vfNames[i], "external path as recorded")
+			verifAssert(imageFile.ExternalPath() == "ext/"+vfName(i), "external path as recorded")
 		} else {
 			verifAssert(imageFile.ExternalPath() == g.names[i], "external path defaults to path")
 		}
@@ -255,7 +255,22 @@ func VerifLemma_C01A_GetImage() {
 	}
 }
 
-var vfNames = []string{"a.proto", "b.proto", "c.proto", "d.proto", "e.proto", "f.proto"}
+// vfName: fixed file names (a function, not a package variable: bufimage's package initialiser is not run by the engine).
+func vfName(i int) string {
+	switch i {
+	case 0:
+		return "a.proto"
+	case 1:
+		return "b.proto"
+	case 2:
+		return "c.proto"
+	case 3:
+		return "d.proto"
+	case 4:
+		return "e.proto"
+	}
+	return "f.proto"
+}
 
 func refFIndexOf(g *vfGraph, fdp *descriptorpb.FileDescriptorProto) int {
 	for i := 0; i < g.n; i++ {
@@ -279,30 +294,30 @@ func VerifLemma_C01A_Warnings() {
 	syntaxUnspecified := map[string]struct{}{}
 	unusedMap := map[string]map[string]struct{}{}
 	for i := 0; i < n; i++ {
-		f := &vfFile{idx: i, path: vfNames[i]}
+		f := &vfFile{idx: i, path: vfName(i)}
 		var depNames []string
 		for j := 0; j < i; j++ {
 			switch verifNondetChoice(3) {
 			case 0:
 			case 1:
 				f.deps = append(f.deps, files[j])
-				depNames = append(depNames, vfNames[j])
+				depNames = append(depNames, vfName(j))
 			case 2:
 				f.deps = append(f.deps, files[j])
-				depNames = append(depNames, vfNames[j])
+				depNames = append(depNames, vfName(j))
 				unused[i][j] = true
-				if unusedMap[vfNames[i]] == nil {
-					unusedMap[vfNames[i]] = map[string]struct{}{}
+				if unusedMap[vfName(i)] == nil {
+					unusedMap[vfName(i)] = map[string]struct{}{}
 				}
-				unusedMap[vfNames[i]][vfNames[j]] = struct{}{}
+				unusedMap[vfName(i)][vfName(j)] = struct{}{}
 			}
 		}
-		if unusedMap[vfNames[i]] == nil && verifNondetBool() {
-			unusedMap[vfNames[i]] = map[string]struct{}{}
+		if unusedMap[vfName(i)] == nil && verifNondetBool() {
+			unusedMap[vfName(i)] = map[string]struct{}{}
 		}
 		if verifNondetBool() {
 			noSyntax[i] = true
-			syntaxUnspecified[vfNames[i]] = struct{}{}
+			syntaxUnspecified[vfName(i)] = struct{}{}
 		}
 		name := f.path
 		f.fdp = &descriptorpb.FileDescriptorProto{Name: &name, Dependency: depNames}
@@ -356,10 +371,9 @@ type vfSpec struct {
 	deps   []int
 }
 
-// VerifLemma_C01B_NewImage: newImage over 1..N image files with symbolic (possibly equal) paths, module names from a
-// pool of two (or none) and two commit ids: error iff (no files or a duplicate path or one module with two commits).
-// With reorder, the result is a permutation of the input in which every file follows the in-image files it
-// depends on (when the dependency relation is acyclic); without reorder the input order is kept.
+// VerifLemma_C01B_NewImage: newImage over 0..N image files with symbolic (possibly equal) paths, module names from a
+// pool of two (or none) and two commit ids: error iff (no files or a duplicate path or one module with two commits);
+// an accepted image keeps the input order (with and without reorder, there are no dependencies) and finds files by path.
 func VerifLemma_C01B_NewImage() {
 	n := verifNondetChoice(verifParam("N") + 1)
 	names := vfNondetNames(n, verifParam("P"), false)
@@ -369,23 +383,12 @@ func VerifLemma_C01B_NewImage() {
 	verifAssert(err == nil, "module name b")
 	commits := []uuid.UUID{{1}, {2}}
 	specs := make([]vfSpec, n)
-	adj := [vfMax][vfMax]bool{}
 	files := make([]ImageFile, n)
 	for i := 0; i < n; i++ {
 		specs[i].path = names[i]
 		specs[i].module = verifNondetChoice(3)
 		if specs[i].module != 0 {
 			specs[i].commit = verifNondetChoice(2)
-		}
-		var depNames []string
-		for j := 0; j < n; j++ {
-			if j != i && verifNondetBool() {
-				adj[i][j] = true
-				depNames = append(depNames, names[j])
-			}
-		}
-		if verifNondetBool() {
-			depNames = append(depNames, "zz/absent.proto")
 		}
 		var fn bufparse.FullName
 		cid := uuid.Nil
@@ -396,7 +399,7 @@ func VerifLemma_C01B_NewImage() {
 			fn, cid = modB, commits[specs[i].commit]
 		}
 		name := names[i]
-		file, err := NewImageFile(&descriptorpb.FileDescriptorProto{Name: &name, Dependency: depNames}, fn, cid, "", "", false, false, nil)
+		file, err := NewImageFile(&descriptorpb.FileDescriptorProto{Name: &name}, fn, cid, "", "", false, false, nil)
 		verifAssert(err == nil, "image file is valid")
 		if err != nil {
 			return
@@ -437,6 +440,55 @@ func VerifLemma_C01B_NewImage() {
 	if len(out) != n {
 		return
 	}
+	for i := 0; i < n; i++ {
+		verifAssert(out[i] == files[i], "input order is kept")
+		verifAssert(image.GetFile(names[i]) == files[i], "GetFile finds each file by its path")
+	}
+}
+
+// VerifLemma_C01B_OrderImageFiles: newImage with reorder over 1..N files with distinct symbolic paths and every
+// dependency relation between them (cycles included) plus optional dependencies on a path outside the image: the
+// result is a permutation of the input; when the relation is acyclic every file follows the files it depends on;
+// without reorder the input order is kept.
+func VerifLemma_C01B_OrderImageFiles() {
+	n := verifNondetChoice(verifParam("N")) + 1
+	names := vfNondetNames(n, verifParam("P"), true)
+	adj := [vfMax][vfMax]bool{}
+	files := make([]ImageFile, n)
+	absentDep := verifNondetBool()
+	for i := 0; i < n; i++ {
+		var depNames []string
+		if absentDep {
+			depNames = append(depNames, "zz/absent.proto")
+		}
+		for j := 0; j < n; j++ {
+			if j != i && verifNondetBool() {
+				adj[i][j] = true
+				depNames = append(depNames, names[j])
+			}
+		}
+		name := names[i]
+		file, err := NewImageFile(&descriptorpb.FileDescriptorProto{Name: &name, Dependency: depNames}, nil, uuid.Nil, "", "", false, false, nil)
+		verifAssert(err == nil, "image file is valid")
+		if err != nil {
+			return
+		}
+		files[i] = file
+	}
+	reorder := verifNondetBool()
+	verifCover("inputs built")
+	input := make([]ImageFile, n)
+	copy(input, files)
+	image, err := newImage(input, reorder, vfResolver{})
+	verifAssert(err == nil && image != nil, "distinct paths without modules are accepted")
+	if err != nil {
+		return
+	}
+	out := image.Files()
+	verifAssert(len(out) == n, "image keeps every file")
+	if len(out) != n {
+		return
+	}
 	pos := [vfMax]int{}
 	for i := 0; i < n; i++ {
 		pos[i] = -1
@@ -459,7 +511,6 @@ func VerifLemma_C01B_NewImage() {
 	if !reorder {
 		return
 	}
-	// acyclic?
 	reach := adj
 	for k := 0; k < n; k++ {
 		for i := 0; i < n; i++ {
